@@ -22,7 +22,7 @@
 (* AuthenticateMessage, AuthChallengeMessage, AuthSuccessMessage, ReadyMessage.*)
 EXTENDS WirePrims
 
-CONSTANTS Families,     \* subset of {"SIMPLE", "ERROR", "EVENT", "ROWS", "PREPARED"}
+CONSTANTS Families,     \* subset of {"SIMPLE", "ERROR", "EVENT", "ROWS", "PREPARED", "EVOLVE"}
           FullFx,       \* families enumerated with all subsets of {tracing id, warnings, custom payload}; others: 4 of 8
           Small         \* TRUE: the tour of column types uses one table-spec form and one frame-extras setting (quick tier)
 
@@ -326,6 +326,54 @@ ErrorCase(code, var, tail) ==
     Case(OP_ERROR, I32(code) \o String(A_msg[var]) \o tail.b, [cls |-> "ERROR", code |-> code, msg |-> A_msg[var], info |-> tail.info])
 
 -----------------------------------------------------------------------------
+\* Type evolution ("EVOLVE"): a SEQUENCE of Rows responses decoded one after the other by the same process, whose
+\* metadata carry user defined types of the same keyspace and name but different definitions (ALTER TYPE ... ADD,
+\* DROP + CREATE).  Every response is self-describing, so each must decode to what IT says, whatever was decoded
+\* before.  A scenario is a way of embedding the changing type `inner`; its steps run through Defs and back.
+\* These cases also carry VALUES of the composite types (v3+ encoding: a UDT / tuple value is its fields as
+\* [bytes]; a list / set is <n> then the elements as [bytes]; a map is <n> then key, value as [bytes]).
+S_x == <<120>>  S_n == <<110>>  S_l == <<108>>  S_t == <<116>>  S_m == <<109>>  S_s == <<115>>
+InnerName(scn) == <<101, 118, 111>> \o <<48 + scn>>                     \* "evo1" .. "evo5"
+OuterName(scn) == <<111, 117, 116>> \o <<48 + scn>>                     \* "out2" .. "out5"
+Defs == << << <<S_a, T_int>> >>,                                       \* {a int}
+           << <<S_a, T_int>>, <<S_b, T_vc>> >>,                         \* ALTER TYPE ADD b varchar
+           << <<S_b, T_vc>>, <<S_a, T_int>> >>,                         \* dropped and re-created with the fields in another order
+           << <<S_a, T_vc>> >> >>                                       \* ... and with another type for a
+EvoSteps == <<1, 2, 3, 4, 1>>                                           \* definition in force at each step
+NScenarios == 5
+EvoType(scn, d) ==
+    LET inner == TUdt(S_ks, InnerName(scn), Defs[d]) IN
+    CASE scn = 1 -> inner                                                                  \* the column type itself changes
+      [] scn = 2 -> TUdt(S_ks, OuterName(2), << <<S_x, T_int>>, <<S_n, inner>> >>)          \* nested in an unchanged outer UDT
+      [] scn = 3 -> TUdt(S_ks, OuterName(3), << <<S_l, TList(inner)>> >>)                   \* ... inside a list field
+      [] scn = 4 -> TUdt(S_ks, OuterName(4), << <<S_t, TTuple(<<T_int, inner>>)>> >>)       \* ... inside a tuple field
+      [] scn = 5 -> TUdt(S_ks, OuterName(5), << <<S_m, TMap(T_vc, inner)>>, <<S_s, TSet(inner)>> >>)   \* ... map value, set element
+
+\* a value of type t: [b |-> encoding, v |-> abstract value]; n makes neighbouring fields differ
+RECURSIVE EVal(_, _)
+EVal(t, n) ==
+    CASE t.k = "int"     -> [b |-> I32(7 + n), v |-> <<"i", 7 + n>>]
+      [] t.k = "varchar" -> [b |-> S_c \o <<48 + n>>, v |-> <<"s", S_c \o <<48 + n>>>>]
+      [] t.k = "udt"     -> LET fs == [i \in 1..Len(t.fields) |-> EVal(t.fields[i][2], n + i)] IN
+                            [b |-> Cat([i \in 1..Len(fs) |-> Bytes(V(fs[i].b))]),
+                             v |-> <<"udt", [i \in 1..Len(fs) |-> <<t.fields[i][1], fs[i].v>>]>>]
+      [] t.k = "tuple"   -> LET fs == [i \in 1..Len(t.items) |-> EVal(t.items[i], n + i)] IN
+                            [b |-> Cat([i \in 1..Len(fs) |-> Bytes(V(fs[i].b))]), v |-> <<"tuple", [i \in 1..Len(fs) |-> fs[i].v]>>]
+      [] t.k = "list"    -> LET e1 == EVal(t.e, n + 1)  e2 == EVal(t.e, n + 2) IN
+                            [b |-> I32(2) \o Bytes(V(e1.b)) \o Bytes(V(e2.b)), v |-> <<"list", <<e1.v, e2.v>>>>]
+      [] t.k = "set"     -> LET e == EVal(t.e, n + 1) IN [b |-> I32(1) \o Bytes(V(e.b)), v |-> <<"set", <<e.v>>>>]
+      [] t.k = "map"     -> LET k == EVal(t.key, n + 1)  x == EVal(t.val, n + 2) IN
+                            [b |-> I32(1) \o Bytes(V(k.b)) \o Bytes(V(x.b)), v |-> <<"map", <<<<k.v, x.v>>>>>>]
+EvoCase(scn, pos) ==
+    LET t    == EvoType(scn, EvoSteps[pos])
+        cols == << Col(S_ks, S_t1, S_c, t) >>
+        val  == EVal(t, 0)
+        m    == NoMore(TRUE, FALSE) IN
+    Case(OP_RESULT, I32(2) \o RowsMetadata(m, cols) \o I32(1) \o Bytes(V(val.b)),
+         [cls |-> "RESULT", kind |-> "rows", cols |-> cols, rows |-> <<>>, deep |-> << <<val.v>> >>, nometa |-> FALSE,
+          paging_state |-> None, metadata_id |-> None, cont |-> None])
+
+-----------------------------------------------------------------------------
 VARIABLES c,     \* [fam, pv, var, flags, opcode, stream, body]      (a seed: [fam, pv, var, x])
           fx,    \* frame extras the server put in: [trace, warnings, payload] (options)
           exp,   \* abstract content of the message
@@ -334,18 +382,21 @@ vars == <<c, fx, exp, phase>>
 
 \* seeds only spread the enumeration over TLC's workers (see WireRequests.tla)
 Init == \E fam \in Families, pv \in Versions : \E var \in Vars, x \in FxIdx(fam, pv) :
+            /\ (fam = "EVOLVE" => pv >= 3 /\ var = 1 /\ x = <<FALSE, FALSE, FALSE>>)      \* UDTs: v3+; no frame extras
             /\ c = [fam |-> fam, pv |-> pv, var |-> var, x |-> x]
             /\ fx = Fx(x, var)
             /\ exp = [cls |-> "seed"]
             /\ phase = "seed"
 
-Emit(cs) ==
+\* scn / pos: scenario and position in it of a response that belongs to a sequence (EVOLVE); 0 otherwise
+EmitAt(cs, scn, pos) ==
     /\ c' = [fam |-> c.fam, pv |-> c.pv, var |-> c.var, flags |-> HdrFlags(fx), opcode |-> cs.op,
              stream |-> IF cs.op = OP_EVENT THEN -1 ELSE IF c.var = 1 THEN 1 ELSE IF c.pv >= 3 THEN 300 ELSE 127,
-             body |-> Prefix(fx) \o cs.body]
+             body |-> Prefix(fx) \o cs.body, scn |-> scn, pos |-> pos]
     /\ exp' = cs.exp
     /\ phase' = "case"
     /\ UNCHANGED fx
+Emit(cs) == EmitAt(cs, 0, 0)
 
 TourFx == ~Small \/ c.x = <<FALSE, FALSE, FALSE>>
 
@@ -376,7 +427,13 @@ Prepared ==
                   /\ Emit(Case(OP_RESULT, PreparedBody(c.pv, c.var, g, ColsT(i), A_pk[2], "none"),
                                PreparedExp(c.pv, c.var, g, ColsT(i), A_pk[2], "none")))
 
-Next == phase = "seed" /\ (Simple \/ Event \/ Error \/ Rows \/ Prepared)
+\* a sequence: the seed starts every scenario, each response is followed by the next one of its scenario
+Evolve == /\ c.fam = "EVOLVE"
+          /\ \/ phase = "seed" /\ \E scn \in 1..NScenarios : EmitAt(EvoCase(scn, 1), scn, 1)
+             \/ phase = "case" /\ c.pos < Len(EvoSteps) /\ EmitAt(EvoCase(c.scn, c.pos + 1), c.scn, c.pos + 1)
+
+Next == \/ phase = "seed" /\ (Simple \/ Event \/ Error \/ Rows \/ Prepared)
+        \/ Evolve
 Spec == Init /\ [][Next]_vars
 IsCase == phase = "case"
 
@@ -409,5 +466,6 @@ Witness_Warnings    == ~(IsCase /\ IsSome(fx.warnings) /\ IsSome(fx.trace) /\ Is
 Witness_ReasonMap   == ~(IsCase /\ c.opcode = OP_ERROR /\ exp.code = 4864 /\ HasReasonMap(c.pv))
 Witness_MetadataId  == ~(IsCase /\ c.opcode = OP_RESULT /\ exp.kind = "rows" /\ IsSome(exp.metadata_id))
 Witness_ContPaging  == ~(IsCase /\ c.opcode = OP_RESULT /\ exp.kind = "rows" /\ IsSome(exp.cont))
+Witness_Evolution   == ~(IsCase /\ c.fam = "EVOLVE" /\ c.pos = Len(EvoSteps))
 Witness_PkIndexes   == ~(IsCase /\ c.opcode = OP_RESULT /\ exp.kind = "prepared" /\ IsSome(exp.pk) /\ Len(The(exp.pk)) = 2)
 =============================================================================
